@@ -78,58 +78,59 @@ func ruleChainLoad(c *Ctx, rule string) {
 		return
 	}
 	c.R.Functions[shortFn(fn)] = true
-	info := InfoOf(fn)
 	type loopK struct {
 		K      string
 		call   *ssa.Call
-		hdr    int
+		hdr    *ssa.BasicBlock // header of the loop (in the call's own function) that contains the setup call
 		append *ssa.Call
 	}
-	var loops []*loopK
-	for _, b := range fn.Blocks {
-		for _, in := range b.Instrs {
-			call, ok := in.(*ssa.Call)
-			if !ok || call.Call.IsInvoke() || call.Call.StaticCallee() != nil {
-				continue
-			}
-			if _, isB := call.Call.Value.(*ssa.Builtin); isB {
-				continue
-			}
-			lk := &loopK{call: call, hdr: -1}
-			if ld, ok := call.Call.Value.(*ssa.UnOp); ok {
-				if fa, ok := ld.X.(*ssa.FieldAddr); ok {
-					lk.K = strings.TrimPrefix(fieldName(fa), "Setup")
-				}
-			}
-			for h, body := range info.LoopOf {
-				if body[b.Index] {
-					lk.hdr = h
-				}
-			}
-			loops = append(loops, lk)
-		}
+	inLoop := func(hdr *ssa.BasicBlock, b *ssa.BasicBlock) bool {
+		return hdr != nil && hdr.Parent() == b.Parent() && InfoOf(hdr.Parent()).LoopOf[hdr.Index][b.Index]
 	}
+	var loops []*loopK
+	eachInstr(fn, func(in ssa.Instruction) {
+		call, ok := in.(*ssa.Call)
+		if !ok || call.Call.IsInvoke() || call.Call.StaticCallee() != nil {
+			return
+		}
+		if _, isB := call.Call.Value.(*ssa.Builtin); isB {
+			return
+		}
+		if _, isParam := call.Call.Value.(*ssa.Parameter); isParam {
+			return // a function-valued parameter of a helper, not a registry entry
+		}
+		lk := &loopK{call: call}
+		if ld, ok := call.Call.Value.(*ssa.UnOp); ok {
+			if fa, ok := ld.X.(*ssa.FieldAddr); ok {
+				lk.K = strings.TrimPrefix(fieldName(fa), "Setup")
+			}
+		}
+		for h, body := range InfoOf(call.Parent()).LoopOf {
+			if body[call.Block().Index] {
+				lk.hdr = call.Parent().Blocks[h]
+			}
+		}
+		loops = append(loops, lk)
+	})
 	if len(loops) != 2 {
 		c.R.bad(rule, "LoadPlugins setup calls", c.P.Pos(fn.Pos()), shortFn(fn), fmt.Sprintf("expected two setup call sites (v6, v4), found %d", len(loops)))
 		return
 	}
 	// append sites
-	for _, b := range fn.Blocks {
-		for _, in := range b.Instrs {
-			if call, ok := in.(*ssa.Call); ok {
-				if bi, ok := call.Call.Value.(*ssa.Builtin); ok && bi.Name() == "append" {
-					for _, lk := range loops {
-						if lk.hdr >= 0 && info.LoopOf[lk.hdr][b.Index] {
-							if lk.append != nil {
-								c.R.bad(rule, "LoadPlugins v"+lk.K+" appends", c.P.InstrPos(in), shortFn(fn), "more than one append in the loop body")
-							}
-							lk.append = call
+	eachInstr(fn, func(in ssa.Instruction) {
+		if call, ok := in.(*ssa.Call); ok {
+			if bi, ok := call.Call.Value.(*ssa.Builtin); ok && bi.Name() == "append" {
+				for _, lk := range loops {
+					if inLoop(lk.hdr, in.Block()) {
+						if lk.append != nil {
+							c.R.bad(rule, "LoadPlugins v"+lk.K+" appends", c.P.InstrPos(in), shortFn(fn), "more than one append in the loop body")
 						}
+						lk.append = call
 					}
 				}
 			}
 		}
-	}
+	})
 	ex := NewExplorer(c.P, c.Pure, fn)
 	problems := map[string][]string{}
 	addp := func(k, s string) {
@@ -200,12 +201,21 @@ func ruleChainLoad(c *Ctx, rule string) {
 					addp(K, "handler appended without being checked non-nil")
 				}
 				ph, ok := lk.append.Call.Args[0].(*ssa.Phi)
-				if !ok || ph.Block().Index != lk.hdr {
+				if !ok || ph.Block() != lk.hdr {
 					addp(K, "append does not extend the running handler list")
 				} else {
 					for i, e := range ph.Edges {
 						pred := ph.Block().Preds[i]
-						if info.LoopOf[lk.hdr][pred.Index] && e != ssa.Value(ph) && e != ssa.Value(lk.append) {
+						if !inLoop(lk.hdr, pred) {
+							continue
+						}
+						bad := false
+						for _, leaf := range phiLeaves(e, ph) {
+							if leaf != ssa.Value(lk.append) {
+								bad = true
+							}
+						}
+						if bad {
 							addp(K, "the handler list is modified in the loop by something other than the append")
 						}
 					}
@@ -215,7 +225,7 @@ func ruleChainLoad(c *Ctx, rule string) {
 	}
 	ex.Hooks.BackEdge = func(st *State, from, header *ssa.BasicBlock) {
 		for _, lk := range loops {
-			if lk.hdr != header.Index {
+			if lk.hdr != header {
 				continue
 			}
 			K := lk.K
@@ -264,6 +274,48 @@ func ruleChainLoad(c *Ctx, rule string) {
 		}
 		if isNilConst(ex.ResolveDeep(st, ret.Results[2])) {
 			nSucc++
+			// result positions: handlers4 first, handlers6 second; each fed only by its loop's append
+			for i, K := range []string{"4", "6"} {
+				var lk *loopK
+				for _, l := range loops {
+					if l.K == K {
+						lk = l
+					}
+				}
+				if lk == nil {
+					addp(K, "no setup loop for protocol "+K)
+					continue
+				}
+				var accept func(v ssa.Value) bool
+				accept = func(v ssa.Value) bool {
+					if sl, ok := v.(*ssa.Slice); ok {
+						_, isAlloc := sl.X.(*ssa.Alloc)
+						return isAlloc
+					}
+					if _, ok := v.(*ssa.MakeSlice); ok {
+						return true
+					}
+					if p, ok := v.(*ssa.Parameter); ok && p.Parent() != fn {
+						// the accumulator parameter of a helper: judged by what the call site passes
+						okAll, n := true, 0
+						for _, site := range c.P.CallersOf(p.Parent()) {
+							for j, q := range p.Parent().Params {
+								if q == p && j < len(site.Common().Args) {
+									n++
+									if ok2, _ := originsWithin(site.Common().Args[j], accept); !ok2 {
+										okAll = false
+									}
+								}
+							}
+						}
+						return okAll && n > 0
+					}
+					return lk.append != nil && v == ssa.Value(lk.append)
+				}
+				if ok, why := originsWithin(ex.ResolveDeep(st, ret.Results[i]), accept); !ok {
+					addp(K, "returned handler list has an origin other than the empty list and this protocol's append: "+why)
+				}
+			}
 			// success: nothing of the current iteration may be pending
 			for _, lk := range loops {
 				if st.seen["setup"+lk.K] && !st.seen["append"+lk.K] {
@@ -276,46 +328,11 @@ func ruleChainLoad(c *Ctx, rule string) {
 	if ex.Exceeded {
 		c.R.unk(rule, "LoadPlugins explore", c.P.Pos(fn.Pos()), shortFn(fn), "state budget exceeded")
 	}
-	// result positions: handlers4 first, handlers6 second; each fed only by its loop's append
-	for _, b := range fn.Blocks {
-		ret, ok := b.Instrs[len(b.Instrs)-1].(*ssa.Return)
-		if !ok || len(ret.Results) != 3 {
-			continue
-		}
-		if k, isC := ret.Results[2].(*ssa.Const); !isC || k.Value != nil {
-			continue
-		}
-		for i, K := range []string{"4", "6"} {
-			var lk *loopK
-			for _, l := range loops {
-				if l.K == K {
-					lk = l
-				}
-			}
-			if lk == nil {
-				addp(K, "no setup loop for protocol "+K)
-				continue
-			}
-			ok, why := originsWithin(ret.Results[i], func(v ssa.Value) bool {
-				if sl, ok := v.(*ssa.Slice); ok {
-					_, isAlloc := sl.X.(*ssa.Alloc)
-					return isAlloc
-				}
-				if _, ok := v.(*ssa.MakeSlice); ok {
-					return true
-				}
-				return lk.append != nil && v == ssa.Value(lk.append)
-			})
-			if !ok {
-				addp(K, "returned handler list has an origin other than the empty list and this protocol's append: "+why)
-			}
-		}
-	}
 	for _, lk := range loops {
 		key := "LoadPlugins v" + lk.K + " loop"
 		pos := c.P.InstrPos(lk.call)
-		if lk.hdr < 0 || !strings.HasPrefix(fn.Blocks[lk.hdr].Comment, "rangeindex.") {
-			addp(lk.K, "setup call is not inside a range loop over the configured plugin list")
+		if lk.hdr == nil || !(strings.HasPrefix(lk.hdr.Comment, "rangeindex.") || CountedLoopAt(lk.hdr.Parent(), lk.hdr.Index) != nil) {
+			addp(lk.K, "setup call is not inside a range (or counted) loop over the configured plugin list")
 		}
 		if lk.append == nil {
 			addp(lk.K, "no append in the loop")
@@ -502,4 +519,27 @@ func ruleChainShared(c *Ctx, rule string) {
 	if n == 0 {
 		c.R.bad(rule, "Start handlers stores", c.P.Pos(fn.Pos()), shortFn(fn), "no store to a listener's handlers field found")
 	}
+}
+
+// phiLeaves: the non-phi values that can flow into v through (nested) phis;
+// `self` (the loop-header phi being analysed) is not followed and not reported.
+func phiLeaves(v ssa.Value, self *ssa.Phi) []ssa.Value {
+	var out []ssa.Value
+	seen := map[*ssa.Phi]bool{self: true}
+	var walk func(x ssa.Value)
+	walk = func(x ssa.Value) {
+		if p, ok := x.(*ssa.Phi); ok {
+			if seen[p] {
+				return
+			}
+			seen[p] = true
+			for _, e := range p.Edges {
+				walk(e)
+			}
+			return
+		}
+		out = append(out, x)
+	}
+	walk(v)
+	return out
 }
